@@ -360,8 +360,7 @@ def c06_milestones(m, obs, mech):
                 dl = [obs.end]
                 for k in range(len(t["path"]) - 1, 0, -1):
                     if "end" in tm[t["path"][:k]]:
-                        dl.append(tm[t["path"][:k]]["end"])
-                        break
+                        dl.append(tm[t["path"][:k]]["end"])     # every enclosing container's deadline binds (the earliest wins)
                 ok = True
                 if succ_map is None:
                     succ_map = {}
@@ -506,12 +505,11 @@ def c08(m, obs, mech, cals=None):
                 dl.append(t["end"])
                 kinds.append("own-end")
             else:
-                # nearest container end is propagated to terminal leaves
+                # the end of every enclosing container is a deadline for everything inside it (the earliest wins)
                 for k in range(len(t["path"]) - 1, 0, -1):
                     if "end" in tm[t["path"][:k]]:
                         dl.append(tm[t["path"][:k]]["end"])
                         kinds.append("container-end")
-                        break
             ok = True
             ms = []
             for a_path, d, via in succ.get(t["path"], []):
